@@ -143,7 +143,7 @@ def run(ctx):
         # three macros x three views
         ctx.cov["traces_validated_against_impl"] += rep["cases"]
         ctx.cov["impl_checks"] += rep["checks"]
-        for k in ("static_cases", "static_shapes", "ops_seen"):
+        for k in ("static_cases", "static_shapes", "ops_seen", "cases_of_another_ctxt_resolution"):
             if k in rep["extra"]:
                 ctx.cov[k] = rep["extra"][k]
         for d in rep["extra"].get("drift", []):
@@ -158,7 +158,7 @@ def run(ctx):
     if rc is None:
         ops = ctx.cov.get("ops_seen", {})
         missing = [o for o in ("and", "opt", "none", "ref", "box", "arc", "erased", "dedup", "asmap",
-                               "pair", "arr2", "slice", "btree", "hash", "empty", "ctxt", "extent", "spanctxt")
+                               "pair", "arr2", "slice", "btree", "hash", "empty", "ctxt", "extent", "spanctxt", "span", "metric")
                    if not ops.get(o)]
         if missing:
             raise vlib.ToolError("vacuity: node kinds never built: %s" % missing)
@@ -179,8 +179,10 @@ def run(ctx):
         "the design-level F1 demonstration (the repaired lookup does not depend on it)",
         "macro call sites: emit!/evt! with exactly one #[cfg]-gated key-value and template holes naming a raw identifier do not compile "
         "on the pinned tree; those forms are exercised through props! only / without the hole",
-        "views: Extent, SpanCtxt and the ThreadLocalCtxt snapshot (distinct keys per frame; which duplicate a frame keeps is C03's subject) "
-        "are modelled; the property lists of Span and Metric events (`to_event().props()`) are NOT in this model",
+        "views: Extent, SpanCtxt, the property views of Span and Metric events (`to_event().props()`, user properties may repeat the "
+        "well-known keys) and ThreadLocalCtxt snapshots (1 frame, 2-3 nested frames with overlapping keys) are modelled; which frame's "
+        "value a snapshot keeps for a repeated key is C03's subject: every resolution is enumerated and the one the real snapshot shows "
+        "is judged (get/enumeration agreement, dedup, unique claim)",
         "bounded: %s | %s" % (vlib.cfg_header(os.path.join(vlib.SPEC, "Props_%s.cfg" % tier)),
                               vlib.cfg_header(os.path.join(vlib.SPEC, "PropsSites_%s.cfg" % tier))),
     ]
